@@ -11,7 +11,7 @@
    resolution; a repeated draw is byte-identical to the first. *)
 From Coq Require Import List NArith Bool FMapPositive.
 From SNT Require Export Base.Report Base.Outcome Image.KDTree Image.Octree Image.Quantize Image.Sixel
-     Image.SixelDraw Image.SixelCache Image.SrgbSpec Gen.TabSixel.
+     Image.SixelDraw Image.SixelCache Image.SixelFast Image.SrgbSpec Gen.TabSixel.
 Import ListNotations.
 Local Open Scope N_scope.
 
@@ -58,40 +58,12 @@ Definition first_draw_agrees (rows : list (list spx)) (impl : list N) : bool :=
   | _ => false
   end.
 
-Fixpoint list_eqb2_opt {A B} (f : A -> B -> bool) (x : list A) (y : list B) : bool :=
-  match x, y with
-  | [], [] => true
-  | a :: x', b :: y' => f a b && list_eqb2_opt f x' y'
-  | _, _ => false
-  end.
-
-(* picture_ok / picture_eq of Image/Sixel.v evaluated through a finite map from pixel number
-   (y * w + x) to the newest colour painted there: the same predicates, computed in
-   O(n log n) so that pictures of 50k pixels can be checked *)
-Definition pix_key (w x y : N) : positive := N.succ_pos (y * w + x).
-
-Definition pix_map (w : N) (evs : list (N * N * rgb)) : PositiveMap.t rgb :=
-  fold_left (fun m e => let '(x, y, v) := e in PositiveMap.add (pix_key w x y) v m) (rev_append evs [])
-            (PositiveMap.empty rgb).
-
-Definition picture_ok_fast (w h : N) (p : picture) : bool :=
-  (p_width p =? w) && (p_height p =? h) &&
-  forallb (ev_in w h) (p_events p) &&
-  (let m := pix_map w (p_events p) in
-   forallb (fun i => PositiveMap.mem (N.succ_pos i) m) (nrange_from 0 (N.to_nat (w * h)))) &&
-  regs_ok (p_regs p).
-
-Definition picture_eq_fast (w : N) (expected : list (list rgb)) (p : picture) : bool :=
-  let m := pix_map w (p_events p) in
-  list_eqb2_opt (fun (i : N) (v : rgb) =>
-                   match PositiveMap.find (N.succ_pos i) m with Some u => rgb_eqb u v | None => false end)
-                (nrange_from 0 (length (concat expected))) (concat expected).
-
 Definition first_draw_holds (rows : list (list spx)) (impl : list N) : bool :=
   let r6 := rows6 rows in
   let h := N.of_nat (length r6) in
   let w := match r6 with r :: _ => N.of_nat (length r) | [] => 0 end in
   if (h =? 0) || (w =? 0) then true            (* height < 6 or no columns: outside the quantifier *)
+  else if negb (img_rect rows) then false       (* a harness error *)
   else
     match sixel_decode impl with
     | None => false
@@ -125,19 +97,30 @@ Fixpoint drawn_before (rows : list (list spx)) (seen : list (list (list spx) * l
    be the encoding of the view under the observed strip order.  Specification side: EVERY
    draw must decode to the view it was given, and a draw of a view whose content was drawn
    before must repeat those bytes. *)
+(* what was done to the handler: a draw (image number, bytes written, then the accounted cache
+   size and number of entries, read through the verif-hooks accessor), or the hook that
+   overrides the accounted size so that the eviction loop is reached *)
+Inductive dop :=
+| DDraw (k : nat) (bytes : list N) (size : N) (entries : nat)
+| DSize (n : N).
+
 Fixpoint run_draws (imgs : list (list (list spx) * N)) (st : hstate)
          (seen : list (list (list spx) * list N))
-         (draws : list (nat * list N)) : bool * bool :=
+         (draws : list dop) : bool * bool :=
   match draws with
   | [] => (true, true)
-  | (k, impl) :: r =>
+  | DSize n :: r =>
+      (* from here on entries may be evicted: a re-encoded image may use another strip order,
+         so the specification side only asks that every draw decodes to its view *)
+      run_draws imgs (fst st, n) [] r
+  | DDraw k impl size entries :: r =>
       let '(rows, key) := nth k imgs ([], 0) in
+      let st' := snd (hdraw sixel_cache_limit st key (match impl with [] => None | _ => Some impl end)) in
       let a :=
         match c_find key (fst st) with
         | Some bytes => nlist_eqb bytes impl
         | None => first_draw_agrees rows impl
-        end in
-      let st' := snd (hdraw sixel_cache_limit st key (match impl with [] => None | _ => Some impl end)) in
+        end && (snd st' =? size) && Nat.eqb (length (fst st')) entries in
       let h :=
         match drawn_before rows seen with
         | Some bytes => nlist_eqb bytes impl       (* the same bytes were decoded and checked for this content *)
@@ -158,11 +141,18 @@ Definition px_blend_ok (bg : N * N * N * N) (p : spx) : bool :=
 Definition parents_blend_ok (bg : N * N * N * N) (parents : list (list (list spx))) : bool :=
   forallb (forallb (forallb (px_blend_ok bg))) parents.
 
+(* run-length notation for the rows of large parents in case files (parsing cost only) *)
+Fixpoint unrle (l : list (nat * spx)) : list spx :=
+  match l with
+  | [] => []
+  | (n, p) :: r => repeat p n ++ unrle r
+  end.
+
 Inductive c12_case :=
   SIX (bg : N * N * N * N)            (* the handler's background (black, opaque when not configured) *)
       (parents : list (list (list spx)))
       (imgs : list (nat * option (nat * nat * nat * nat) * N))  (* parent number, crop, observed content hash *)
-      (draws : list (nat * list N)).
+      (draws : list dop).
 
 Definition c12_check (c : c12_case) : bool * bool :=
   match c with
